@@ -2,6 +2,7 @@
 from __future__ import annotations
 
 import ast
+import copy
 from fractions import Fraction
 
 from ..core import astutil as A
@@ -160,7 +161,12 @@ def mul_identity(chk, f, rule="FF3"):
         fac, scal = through_path(fac), through_path(scal)
         ctext = " and ".join(("" if o else "not ") + A.text(t) for t, o in conds) or "always"
         # does this path know that the modulus is non-zero?
-        nonzero = any((A.text(t) in (f"{am} > 0", f"{am} != 0", am) and o) or (A.text(t) in (f"{am} == 0", f"not {am}") and not o) for t, o in conds)
+        def _strip_not(t, o):
+            while isinstance(t, ast.UnaryOp) and isinstance(t.op, ast.Not):
+                t, o = t.operand, not o
+            return t, o
+        nconds = [_strip_not(t, o) for t, o in conds]
+        nonzero = any((A.text(t) in (f"{am} > 0", f"{am} != 0", am, f"0 < {am}") and o) or (A.text(t) in (f"{am} == 0", f"{am} <= 0") and not o) for t, o in nconds)
         if fac is None:
             chk.bad(rule, (f, ret), f"[{ctext}] {phi}.factor", f"__mul__: on the path [{ctext}] the factor of the result is not set")
             continue
@@ -196,6 +202,17 @@ def scalar_siblings(chk, cls, rule="FF3"):
         NUM, F_ = Rat(Poly.sym(num)), Rat(Poly.sym("F"))
         want = expect(NUM)
         body = A.strip_docstring(fn.body)
+        if len(body) > 1 and isinstance(body[-1], ast.Return) and body[-1].value is not None and all(
+                isinstance(st_, ast.Assign) and len(st_.targets) == 1 and isinstance(st_.targets[0], ast.Name) for st_ in body[:-1]):
+            # temporaries in front of a single return (`inverse = 1 / number; return self.__mul__(inverse)`) are written out
+            tmp_ = {st_.targets[0].id: st_.value for st_ in body[:-1]}
+            if len(tmp_) == len(body) - 1:
+                class _W(ast.NodeTransformer):
+                    def visit_Name(self, n_):
+                        if isinstance(n_.ctx, ast.Load) and n_.id in tmp_:
+                            return self.visit(copy.deepcopy(tmp_[n_.id]))
+                        return n_
+                body = [ast.copy_location(ast.Return(value=_W().visit(copy.deepcopy(body[-1].value))), body[-1])]
         if len(body) == 1 and isinstance(body[0], ast.Return) and isinstance(body[0].value, ast.Call) and A.text(body[0].value.func) in (f"{me}.__mul__",) \
                 and len(body[0].value.args) == 1:
             try:
